@@ -71,6 +71,15 @@ type ReaderScn struct {
 	// that probes for fast paths); all of them serve the same stream, schedule
 	// and fault
 	Rich bool `json:"rich,omitempty"`
+	// Std: the reader handed to NewBlockParser is a standard-library value
+	// (a callee may type-switch on well-known concrete types): "bytes.Buffer",
+	// "bytes.Reader", "strings.Reader" hold the stream up to the fault point
+	// (no schedule, no error fault); "bufio.Reader" wraps the simulated reader
+	// and keeps its schedule and faults.  When the parse is over the caller
+	// REUSES what it owns: the bytes.Buffer is Reset and refilled, the slice
+	// under the bytes.Reader is overwritten - blocks already delivered must
+	// not notice.
+	Std string `json:"std,omitempty"`
 	// Consumer: WHEN the caller completes the blocks it has received (the
 	// caller's side of the schedule).  "" = all blocks after the end of the
 	// stream (what Parse does); "eager" = every block is rewritten as soon as
@@ -86,6 +95,10 @@ type WriterScn struct {
 	FailAt     int    `json:"fail_at_write"`     // index of the failing call, -1 = never
 	ByteBudget int    `json:"byte_budget"`       // -1 = unlimited; crossing write is partial+error
 	Partial    int    `json:"partial,omitempty"` // bytes accepted by the failing call (FailAt mode)
+	// Full: the failing call reports EVERY byte as written together with the
+	// error (a device that took the data and then failed to flush it).  Legal:
+	// io.Writer only demands an error when n < len(p).
+	Full bool `json:"full,omitempty"`
 }
 
 type RenderScn struct {
@@ -149,9 +162,16 @@ func docSHA(b []byte) string {
 }
 
 func (s *Scenario) clone() *Scenario {
-	b, _ := json.Marshal(s)
+	// the recorded history can be hundreds of scenarios; they are never
+	// modified, so the copy shares them (a fresh slice, the same elements)
+	shallow := *s
+	shallow.Prelude = nil
+	b, _ := json.Marshal(&shallow)
 	var c Scenario
 	_ = json.Unmarshal(b, &c)
+	if s.Prelude != nil {
+		c.Prelude = append([]*Scenario(nil), s.Prelude...)
+	}
 	return &c
 }
 
